@@ -35,6 +35,19 @@ pub mod chrono {
         { unimplemented!() }
         #[verifier::external_body]
         pub fn nanoseconds(n: i64) -> (r: Duration) ensures dur_ns(r) == n as int { unimplemented!() }
+        /// whole seconds, truncated toward zero, and the remaining nanoseconds carrying the same sign (chrono: `num_seconds`, `subsec_nanos`)
+        #[verifier::external_body]
+        pub fn num_seconds(&self) -> (r: i64)
+            ensures r == (if dur_ns(*self) >= 0 { dur_ns(*self) / 1_000_000_000 } else { -((-dur_ns(*self)) / 1_000_000_000) })
+        { unimplemented!() }
+        #[verifier::external_body]
+        pub fn subsec_nanos(&self) -> (r: i32)
+            ensures r == (if dur_ns(*self) >= 0 { dur_ns(*self) % 1_000_000_000 } else { -((-dur_ns(*self)) % 1_000_000_000) })
+        { unimplemented!() }
+        #[verifier::external_body]
+        pub fn num_milliseconds(&self) -> (r: i64)
+            ensures r == (if dur_ns(*self) >= 0 { dur_ns(*self) / 1_000_000 } else { -((-dur_ns(*self)) / 1_000_000) })
+        { unimplemented!() }
         #[verifier::external_body]
         pub fn checked_add(&self, rhs: &Duration) -> (r: Option<Duration>)
             ensures match r { Some(d) => dur_ok(dur_ns(*self) + dur_ns(*rhs)) && dur_ns(d) == dur_ns(*self) + dur_ns(*rhs),
